@@ -262,6 +262,13 @@ def exprPost (tol : Bool) (strictBraces : Option Bool) (f : PSFields) (pos : Nat
       .tuple (.node (Node.chars pos pos (psInfo f) [])) (some pos) (some 0)
     else .tuple .none (some pos) (some 0)
 
+/-- `getattr(e, '_error_was_unexpected_closing_brace_in_expression', False)`: the attribute is set only on the
+    exception object that `LatexExpressionParser._parse_single_token` creates itself (it carries
+    `recovery_at_token`).  The same kind of error raised by a NESTED expression parser (the argument of a macro
+    inside the group being read) reaches the shim re-wrapped by `LatexGeneralNodesParser.parse` into a fresh
+    `LatexWalkerNodesParseError` — `rawGeneral` keeps `what`/`pos` and drops `recAt` — without the attribute. -/
+def closeBraceMarker (e : PErr) : Bool := e.what == .exprCloseBrace && e.recAt.isSome
+
 def getLatexExpression (env : Env) (n : Nat) (f : PSFields) (strictBraces : Option Bool) (pos : Nat) : LRes :=
   match run env n (.pc (.expression true) f pos) with
   | .ok (.node nd) _ => exprPost env.tol strictBraces f pos (some nd)
@@ -269,7 +276,7 @@ def getLatexExpression (env : Env) (n : Nat) (f : PSFields) (strictBraces : Opti
   | .ok _ _ => .crash "AttributeError"
   | .perr e =>
     -- `_error_was_unexpected_closing_brace_in_expression and not strict_braces`
-    if e.what == .exprCloseBrace && !(strictBraces == some true) then exprPost env.tol strictBraces f pos none
+    if closeBraceMarker e && !(strictBraces == some true) then exprPost env.tol strictBraces f pos none
     else .perr e
   | .loopEnd _ => .crash "loopEnd"
   | .crash k => .crash k
